@@ -5,7 +5,7 @@ const ghostPreludeMarker = "// ---- ghost prelude ----"
 // Names the engine intercepts (their Go bodies exist for replay only).
 var ghostBuiltinNames = []string{
 	"seq", "seqOf", "bytesOf", "cat", "cat3", "cat4", "b1", "u16be", "sub", "slen", "sat", "mkseq", "seqEq", "seq0",
-	"sameSlice", "forallKey", "maxAlloc", "ssnap", "sliceSnap", "ssLen", "ssAt", "msnap", "mapSnap", "guardSnap", "guardVal", "snapHas", "snapGet", "mapHas", "forall", "forallPairs", "forallGrid", "exists", "fresh", "arrayOf", "sameArray", "ite",
+	"sameSlice", "forallKey", "maxAlloc", "ssnap", "sliceSnap", "ssLen", "ssAt", "msnap", "mapSnap", "guardSnap", "guardVal", "guardSlice", "snapHas", "snapGet", "mapHas", "forall", "forallPairs", "forallGrid", "exists", "fresh", "arrayOf", "sameArray", "ite",
 	"evCount", "evIndex", "evArg", "evBytes", "evRet", "evTotal",
 	"holds", "holdsR", "closed", "isNilFunc", "closureIs", "closureVar", "sameFunc", "dynType", "typeIs",
 	"strBytesEq", "runeOK", "validUTF8", "utf8norm", "utf8normOf", "ovfFree", "unchanged", "fnCode", "readyAt",
@@ -136,6 +136,9 @@ func ghostTrue() bool { return true }
 
 // guardVal(&x.f): value the lock-guarded field had right after its guard was last acquired (verifier only).
 func guardVal[T any](p *T) T { return *p }
+
+// guardSlice(&x.f): elements the lock-guarded slice field held right after its guard was last acquired (verifier only).
+func guardSlice[T any](p *[]T) ssnap[T] { return sliceSnap(*p) }
 
 // closed(ch): ghost "channel ch has been closed" (verifier only).
 func closed[T any](ch chan T) bool { return false }
